@@ -492,31 +492,93 @@ def run_tridiag(rep, cprog):
     tp = cprog.func('tridiag_premalloc')
     fl = cprog.func('tridiag_fl')
 
-    def facts(cf, local_gam):
-        out = {}
-        body = [s for s in cf.body]
-        decl = {s.name: s for s in body if isinstance(s, CDecl)}
-        out['bet0'] = unparse(decl['bet'].init) if 'bet' in decl and decl['bet'].init is not None else None
-        asg = [s for s in body if isinstance(s, CAssign)]
-        out['u0'] = (unparse(asg[0].target), unparse(asg[0].value)) if asg else None
-        loops = [s for s in body if isinstance(s, CFor)]
-        out['nloops'] = len(loops)
-        if len(loops) == 2:
-            f, b = loops
-            out['fwd_range'] = (unparse(f.init.value), unparse(f.cond), f.step.op)
-            out['fwd'] = [(unparse(s.target), s.op, unparse(s.value)) for s in f.body]
-            out['bwd_range'] = (unparse(b.init.value), unparse(b.cond), b.step.op)
-            out['bwd'] = [(unparse(s.target), s.op, unparse(s.value)) for s in b.body]
-        return out
-    ref = {'bet0': 'b[0]', 'u0': ('u[0]', 'r[0] / bet'), 'nloops': 2,
-           'fwd_range': ('1', 'j <= n - 1', '+='),
-           'fwd': [('gam[j]', '=', 'c[j - 1] / bet'), ('bet', '=', 'b[j] - a[j] * gam[j]'), ('u[j]', '=', '(r[j] - a[j] * u[j - 1]) / bet')],
-           'bwd_range': ('n - 2', 'j >= 0', '-='),
-           'bwd': [('u[j]', '-=', 'gam[j + 1] * u[j + 1]')]}
+    def cell_tr(shift_var=None, shift=None):
+        """expressions with array reads as atoms  name{index}  (index in canonical form); the loop variable optionally shifted"""
+        env = {shift_var: Rat.atom(shift_var) - shift} if shift_var is not None else {}
+
+        def index_hook(tr_, e):
+            return Rat.atom('%s{%s}' % (tr_._basename(e.value), tr_.tr(e.slice).canon()))
+        return Translator(env, index_hook=index_hook)
+
+    def loop_facts(lp):
+        """(direction, lowest index, highest index, [(target, op, value)]) with the loop variable shifted so that the first array store
+        of the body goes to element [variable]"""
+        lv = unparse(lp.init.target)
+        T0 = cell_tr()
+        start = T0.tr(lp.init.value)
+        c = lp.cond
+        if not (isinstance(c, ast.Compare) and unparse(c.left) == lv and len(c.ops) == 1 and isinstance(lp.step, CAssign) and unparse(lp.step.target) == lv and unparse(lp.step.value) == '1'):
+            raise AlgebraError('loop of line %d is not a counted loop' % lp.line)
+        bound = T0.tr(c.comparators[0])
+        one = Rat.const(1)
+        if lp.step.op == '+=' and isinstance(c.ops[0], (ast.Lt, ast.LtE)):
+            direction, lo, hi = 'up', start, bound if isinstance(c.ops[0], ast.LtE) else bound - one
+        elif lp.step.op == '-=' and isinstance(c.ops[0], (ast.Gt, ast.GtE)):
+            direction, lo, hi = 'down', bound if isinstance(c.ops[0], ast.GtE) else bound + one, start
+        else:
+            raise AlgebraError('loop of line %d: direction and test do not match' % lp.line)
+        stores = [s_ for s_ in lp.body if isinstance(s_, CAssign) and isinstance(s_.target, ast.Subscript)]
+        if not stores or any(not isinstance(s_, CAssign) for s_ in lp.body):
+            raise AlgebraError('loop of line %d has other statements than assignments' % lp.line)
+        shift = T0.tr(stores[0].target.slice) - Rat.atom(lv)        # the first store goes to [lv + shift]
+        if not shift.is_const():
+            raise AlgebraError('store index of line %d is not the loop variable plus a constant' % stores[0].line)
+        T = cell_tr(lv, shift)
+        out = []
+        for s_ in lp.body:
+            tgt = T.tr(s_.target).canon() if isinstance(s_.target, ast.Subscript) else unparse(s_.target)
+            op, val = s_.op, s_.value
+            if op == '=' and isinstance(val, ast.BinOp) and isinstance(val.op, (ast.Sub, ast.Add)) and unparse(val.left) == unparse(s_.target):
+                op, val = ('-=' if isinstance(val.op, ast.Sub) else '+='), val.right
+            out.append((tgt.replace(lv, 'j'), op, T.tr(val)))
+        return direction, lo + shift, hi + shift, out, lv
+
+    def thomas(cf):
+        """problems of the Thomas recurrence in cf (empty when it is the recurrence); facts independent of how the loops are bounded
+        and which element the loop variable names"""
+        bad = []
+        body = [s_ for s_ in cf.body]
+        T0 = cell_tr()
+        # straight-line prefix: bet = b[0]; u[0] = r[0]/bet
+        pre = {}
+        for s_ in body:
+            if isinstance(s_, CFor):
+                break
+            if isinstance(s_, CDecl) and s_.init is not None and not s_.pointer:
+                pre[s_.name] = T0.tr(s_.init)
+            elif isinstance(s_, CAssign):
+                pre[T0.tr(s_.target).canon() if isinstance(s_.target, ast.Subscript) else unparse(s_.target)] = Translator(dict((k_, v_) for k_, v_ in pre.items() if '{' not in k_), index_hook=T0.index_hook).tr(s_.value)
+        if not ('bet' in pre and pre['bet'].equals(Rat.atom('b{0}'))):
+            bad.append('bet starts as %s' % (pre['bet'].canon() if 'bet' in pre else 'nothing'))
+        if not ('u{0}' in pre and pre['u{0}'].equals(Rat.atom('r{0}') / Rat.atom('b{0}'))):
+            bad.append('u[0] = %s' % (pre['u{0}'].canon() if 'u{0}' in pre else 'nothing'))
+        loops = [s_ for s_ in body if isinstance(s_, CFor)]
+        if len(loops) != 2:
+            raise AlgebraError('%d loops' % len(loops))
+        d1, lo1, hi1, st1, v1 = loop_facts(loops[0])
+        d2, lo2, hi2, st2, v2 = loop_facts(loops[1])
+        n1 = Rat.atom('n') - Rat.const(1)
+        if not (d1 == 'up' and lo1.equals(Rat.const(1)) and hi1.equals(n1)):
+            bad.append('elimination runs %s over [%s, %s]' % (d1, lo1.canon(), hi1.canon()))
+        J = Rat.atom(v1)
+        at = lambda a, k=0, v=v1: Rat.atom('%s{%s}' % (a, (Rat.atom(v) + Rat.const(k)).canon()))
+        want1 = [('gam{%s}' % 'j', '=', at('c', -1) / Rat.atom('bet')), ('bet', '=', at('b') - at('a') * at('gam')), ('u{%s}' % 'j', '=', (at('r') - at('a') * at('u', -1)) / Rat.atom('bet'))]
+        if [(t_, o_) for t_, o_, _ in st1] != [(t_, o_) for t_, o_, _ in want1] or not all(a_[2].equals(b_[2]) for a_, b_ in zip(st1, want1)):
+            bad.append('elimination step: %s' % '; '.join('%s %s %s' % (t_, o_, v_.canon()) for t_, o_, v_ in st1)[:160])
+        if not (d2 == 'down' and lo2.equals(Rat.const(0)) and hi2.equals(n1 - Rat.const(1))):
+            bad.append('back substitution runs %s over [%s, %s]' % (d2, lo2.canon(), hi2.canon()))
+        at2 = lambda a, k=0: at(a, k, v2)
+        want2 = [('u{j}', '-=', at2('gam', 1) * at2('u', 1))]
+        if [(t_, o_) for t_, o_, _ in st2] != [(t_, o_) for t_, o_, _ in want2] or not all(a_[2].equals(b_[2]) for a_, b_ in zip(st2, want2)):
+            bad.append('back substitution step: %s' % '; '.join('%s %s %s' % (t_, o_, v_.canon()) for t_, o_, v_ in st2)[:160])
+        return bad
     for cf in (tp, fl):
-        got = facts(cf, cf is fl)
-        for k_, v in ref.items():
-            rep.ob('R-ALG', 'C %s %s' % (cf.name, k_), got.get(k_) == v, '%s = %s; Thomas recurrence expects %s' % (k_, got.get(k_), v), rel, cf.line, what='Thomas algorithm: ' + k_)
+        try:
+            bad = thomas(cf)
+            det = '; '.join(bad) if bad else 'bet = b[0]; u[0] = r[0]/bet; for j = 1..n-1: gam[j] = c[j-1]/bet, bet = b[j] - a[j] gam[j], u[j] = (r[j] - a[j] u[j-1])/bet; for j = n-2..0: u[j] -= gam[j+1] u[j+1]'
+        except (AlgebraError, AttributeError, KeyError) as e:
+            bad, det = ['?'], '%s is not recognised: %s' % (cf.name, e)
+        rep.ob('R-ALG', 'C %s recurrence' % cf.name, not bad, det, rel, cf.line, what='Thomas algorithm: forward elimination over 1..n-1 and back substitution over n-2..0, whatever the loop bounds are written like')
     td = cprog.func('tridiag')
     seq = [unparse(s.expr) for s in td.body if isinstance(s, CExpr)]
     rep.ob('R-TPL', 'C tridiag', seq == ['tridiag_malloc(n)', 'tridiag_premalloc(a, b, c, r, u, n)', 'tridiag_free()'], '; '.join(seq), rel, td.line, what='allocate, solve, free')
